@@ -23,12 +23,23 @@ use crate::zonemodel::*;
 use crate::Ctx;
 
 const ALPHA: [&[u8]; 4] = [b"a", b"b", b"*", b"c"];
+/// Labels around the edges of the letter ranges (case folding must cover exactly A-Z)
+/// and a few non-letters that differ from letters by the case bit.
+const EDGE: [&[u8]; 12] = [b"z", b"Z", b"y", b"zz", b"aZ", b"@", b"[", b"`", b"{", b"0", b"-", b"\xc1"];
+
+fn pick_label(rng: &mut Rng) -> &'static [u8] {
+    if rng.chance(3, 4) {
+        *rng.pick(&ALPHA)
+    } else {
+        *rng.pick(&EDGE)
+    }
+}
 
 fn small_name(rng: &mut Rng, apex: &RName, max_depth: usize) -> RName {
     let depth = rng.below(max_depth + 1);
     let mut n = apex.clone();
     for _ in 0..depth {
-        n = n.child(*rng.pick(&ALPHA));
+        n = n.child(pick_label(rng));
     }
     n
 }
@@ -73,7 +84,7 @@ pub fn gen_small_zone(rng: &mut Rng, apex: &RName, class: u16, hostile_adds: boo
             }),
             7..=9 => (T_NS, match rng.below(4) {
                 0 => RName::simple("ns.outside."),
-                1 => owner.child(*rng.pick(&ALPHA)),
+                1 => owner.child(pick_label(rng)),
                 _ => small_name(rng, apex, 3),
             }
             .wire()),
